@@ -14,7 +14,8 @@ Definition NM : nat := 2.   (* mutexes *)
 Definition NS : nat := 4.   (* ownership slots *)
 
 Record omx := mkM { locked : bool; waitq : list nat }.
-Record owt := mkW { wslot : nat; wmx : nat }.
+(* a callback request: the slot its grant is stored into, its mutex, and the slots it release()s right after, still inside the hand-over *)
+Record owt := mkW { wslot : nat; wmx : nat; wrel : list nat }.
 
 Record wst := mkWS {
   mxs : list omx;
@@ -26,7 +27,7 @@ Record wst := mkWS {
 
 Definition gmx (s : wst) (m : nat) : omx := nth m (mxs s) (mkM false []).
 Definition gslot (s : wst) (j : nat) : option nat := nth j (slots s) None.
-Definition gwt (s : wst) (k : nat) : owt := nth k (wts s) (mkW 0 0).
+Definition gwt (s : wst) (k : nat) : owt := nth k (wts s) (mkW 0 0 []).
 
 Definition set_mx (s : wst) (m : nat) (x : omx) : wst := mkWS (set_nth (mxs s) m x) (slots s) (wts s) (runlog s) (werr s).
 Definition set_slot (s : wst) (j : nat) (v : option nat) : wst := mkWS (mxs s) (set_nth (slots s) j v) (wts s) (runlog s) (werr s).
@@ -47,7 +48,10 @@ Fixpoint unlock (fuel : nat) (s : wst) (m : nat) : wst :=
           let j := wslot (gwt s2 k) in
           let old := gslot s2 j in
           let s3 := set_slot s2 j (Some m) in
-          match old with Some m' => unlock f s3 m' | None => s3 end
+          let s4 := match old with Some m' => unlock f s3 m' | None => s3 end in
+          (* the callback goes on: slots[a].release() for each a it was told to release *)
+          fold_left (fun s' a => match gslot s' a with Some m2 => unlock f (set_slot s' a None) m2 | None => s' end)
+                    (wrel (gwt s2 k)) s4
       end
   end.
 
@@ -60,7 +64,7 @@ Definition store (s : wst) (j : nat) (v : option nat) : wst :=
   match old with Some m' => unlock (pending s1) s1 m' | None => s1 end.
 
 Definition targeted (s : wst) (j : nat) : bool :=
-  existsb (fun x => existsb (fun k => Nat.eqb (wslot (gwt s k)) j) (waitq x)) (mxs s).
+  existsb (fun x => existsb (fun k => Nat.eqb (wslot (gwt s k)) j || existsb (Nat.eqb j) (wrel (gwt s k))) (waitq x)) (mxs s).
 
 (* ~ownership / unique_ptr destructor: unlocks what it holds; the object must not be a target of a pending callback *)
 Definition destroy (s : wst) (j : nat) : wst :=
@@ -75,7 +79,7 @@ Definition oks (z : Z) : bool := (0 <=? z) && (z <? Z.of_nat NS).
 
 Inductive oop :=
 | OTry (m j : nat)      (* slots[j] = mx[m].try_lock() *)
-| OCb (m j : nat)       (* callback request: when granted, slots[j] = ownership *)
+| OCb (m j : nat) (rl : list nat)   (* callback request: when granted, slots[j] = ownership; then slots[a].release() for a in rl *)
 | ORel (j : nat)        (* slots[j].release() (suspend point discarded) *)
 | ODestroy (j : nat)    (* destroy slots[j], construct an empty one *)
 | OMove (i j : nat)     (* slots[j] = std::move(slots[i]) *)
@@ -86,7 +90,7 @@ Inductive oop :=
 Definition decode (op : list Z) : option oop :=
   match op with
   | [1; m; j] => if okm m && oks j then Some (OTry (z2n m) (z2n j)) else None
-  | [2; m; j] => if okm m && oks j then Some (OCb (z2n m) (z2n j)) else None
+  | 2 :: m :: j :: rl => if okm m && oks j && forallb oks rl && Nat.leb (length rl) 2 then Some (OCb (z2n m) (z2n j) (map z2n rl)) else None
   | [3; j] => if oks j then Some (ORel (z2n j)) else None
   | [4; j] => if oks j then Some (ODestroy (z2n j)) else None
   | [5; i; j] => if oks i && oks j then Some (OMove (z2n i) (z2n j)) else None
@@ -102,10 +106,10 @@ Definition wop (s : wst) (o : oop) : wst * Z :=
   | OTry m j =>
       if locked (gmx s m) then (store s j None, 0)
       else (store (set_mx s m (mkM true (waitq (gmx s m)))) j (Some m), 1)
-  | OCb m j =>
+  | OCb m j rl =>
       if locked (gmx s m) then
         let k := length (wts s) in
-        (mkWS (set_nth (mxs s) m (mkM true (waitq (gmx s m) ++ [k]))) (slots s) (wts s ++ [mkW j m]) (runlog s) (werr s), 0)
+        (mkWS (set_nth (mxs s) m (mkM true (waitq (gmx s m) ++ [k]))) (slots s) (wts s ++ [mkW j m rl]) (runlog s) (werr s), 0)
       else (store (set_mx s m (mkM true (waitq (gmx s m)))) j (Some m), 1)
   | ORel j =>
       match gslot s j with
@@ -177,7 +181,7 @@ Definition line_ok (l : list Z) : bool :=
 (* mutex of each registered waiter, recomputed from the ops and the observed results: op [2;m;j] with result 0 registers *)
 Fixpoint reg_mx (ops obs : list (list Z)) : list Z :=
   match ops, obs with
-  | [2; m; _] :: ro, (r :: _) :: rb => (if Z.eqb r 0 then [m] else []) ++ reg_mx ro rb
+  | (2 :: m :: _) :: ro, (r :: _) :: rb => (if Z.eqb r 0 then [m] else []) ++ reg_mx ro rb
   | _ :: ro, _ :: rb => reg_mx ro rb
   | _, _ => []
   end.
